@@ -671,6 +671,13 @@ func runC07(cfg *vh.Config) error {
 		ff.Terms = append(ff.Terms, et...)
 		frontRecs = append(frontRecs, er...)
 	}
+	// ---- stream 8: conversion-error positions in the non-virtual contexts (service request / response properties, topic
+	// message fields) against the model of child / GetPos alone
+	{
+		ct, cr := runChildPos(cfg, res, &caseNo)
+		ff.Terms = append(ff.Terms, ct...)
+		frontRecs = append(frontRecs, cr...)
+	}
 	// ---- stream 6: package loading (import graphs with missing packages and cycles) against model/CmpbPackage.v
 	{
 		pt, pr := runPkgLoad(cfg, res, &caseNo)
